@@ -23,7 +23,8 @@ Open Scope Z_scope.
 (* facts about the source read by the translator (Generated.v) *)
 Record flags := mk_flags {
   f_guard : bool;    (* run: `if handle.delegate is None: return` after the callback *)
-  f_clear : bool;    (* run: a raising callback clears handle.delegate before the exception propagates *)
+  f_clear : bool;    (* run: a callback leaving through an Exception clears handle.delegate before the exception propagates *)
+  f_clear_base : bool; (* ... and so does one leaving through a BaseException that is no Exception (SystemExit, KeyboardInterrupt, CancelledError) *)
   f_mono : bool;     (* run: re-arm at start + n*interval, n strictly increasing; false: call_later(interval - (now-start) % interval) *)
   f_truth : bool;    (* run: the result is tested by _is_true (Klong truth) inside the try; false: Python `if r` after it *)
   f_resolve : bool   (* KGFnWrapper.__call__ looks its symbol up in the context at every call *)
@@ -39,7 +40,11 @@ Record handle := mk_handle { hid : nat; hwhen : Z; htgt : target }.
 
 (* what one invocation of a callback does: advance the clock by s_dur, perform
    s_act, then raise (ARaise) or return s_ret *)
-Inductive action := ANone | ACancel (j : nat) | ARedef (k : nat) | ARaise | ASpawn | AUndef (k : nat).
+(* how a callback may leave without returning: an Exception; asyncio.CancelledError (a BaseException that
+   Handle._run reports to the exception handler like any other); SystemExit / KeyboardInterrupt, which
+   Handle._run re-raises: they leave _run_once, the handles of the batch not yet run stay in the ready queue *)
+Inductive rkind := RExc | RCancelled | RFatal.
+Inductive action := ANone | ACancel (j : nat) | ARedef (k : nat) | ARaise (k : rkind) | ASpawn | AUndef (k : nat).
 
 (* what a callback returns, as far as a truth test can tell values apart *)
 Inductive retv :=
@@ -205,7 +210,7 @@ Definition do_action (cfg : config) (st : step) (w : world) : world * list event
   | ACancel j => let '(w2, r) := sys_timerc j w1 in (w2, [EvCancel j (w_now w1) r], false)
   | ARedef k => (redefine w1 k, [EvRedef k (w_nver w1)], false)
   | AUndef k => (undefine w1 k, [EvRedef k (fallback w1 k)], false)
-  | ARaise => (w1, [], true)
+  | ARaise _ => (w1, [], true)
   | ASpawn =>
       match w_pool w1 with
       | [] => (w1, [], false)
@@ -226,7 +231,8 @@ Definition continue_or_stop (fl : flags) (cfg : config) (i : nat) (b : bool) (w 
 (* what follows the callback in run.  The event records what the callback returned, as a Klong truth value. *)
 Definition epilogue (fl : flags) (cfg : config) (i : nat) (st : step) (raised : bool) (w : world) : world * list event :=
   if raised then
-    ((if f_clear fl then set_delegate w i None else w), [EvEnd i (w_now w) Raised])
+    let clears := match s_act st with ARaise RExc => f_clear fl | _ => f_clear_base fl end in
+    ((if clears then set_delegate w i None else w), [EvEnd i (w_now w) Raised])
   else
     let ev := [EvEnd i (w_now w) (if klong_truth (s_ret st) then RetTrue else RetFalse)] in
     if f_truth fl then (continue_or_stop fl cfg i (klong_truth (s_ret st)) w, ev)
@@ -237,26 +243,28 @@ Definition epilogue (fl : flags) (cfg : config) (i : nat) (st : step) (raised : 
       end.
 
 (* _call_periodic.run(handle), entered from a loop handle armed for `due` *)
-Definition run_timer (fl : flags) (cfg : config) (i : nat) (due : Z) (w : world) : world * list event :=
+Definition is_fatal (st : step) : bool := match s_act st with ARaise RFatal => true | _ => false end.
+
+Definition run_timer (fl : flags) (cfg : config) (i : nat) (due : Z) (w : world) : world * list event * bool :=
   let st := match w_scr w i with s :: _ => s | [] => default_step end in
   let v := if f_resolve fl then eff w i else t_fn0 (w_tm w i) in
   let ev1 := EvTick i (w_now w) due v in
   let w0 := set_scr w (upd (w_scr w) i (tl (w_scr w i))) in
   let '(w1, evs, raised) := do_action cfg st w0 in
   let '(w2, eve) := epilogue fl cfg i st raised w1 in
-  (w2, ev1 :: evs ++ eve).
+  (w2, ev1 :: evs ++ eve, is_fatal st).
 
 (* Handle._run, after the loop found the handle not cancelled *)
-Definition run_handle (fl : flags) (cfg : config) (h : handle) (w : world) : world * list event :=
-  if w_canc w (hid h) then (w, []) else
+Definition run_handle (fl : flags) (cfg : config) (h : handle) (w : world) : world * list event * bool :=
+  if w_canc w (hid h) then (w, [], false) else
   match htgt h with
   | TRun i => run_timer fl cfg i (hwhen h) w
-  | TCancel j => let '(w1, r) := sys_timerc j w in (w1, [EvCancel j (w_now w) r])
-  | TRedef k => (redefine w k, [EvRedef k (w_nver w)])
-  | TUndef k => (undefine w k, [EvRedef k (fallback w k)])
+  | TCancel j => let '(w1, r) := sys_timerc j w in (w1, [EvCancel j (w_now w) r], false)
+  | TRedef k => (redefine w k, [EvRedef k (w_nver w)], false)
+  | TUndef k => (undefine w k, [EvRedef k (fallback w k)], false)
   end.
 
-(* for i in range(ntodo): handle = ready.popleft(); ... *)
+(* for i in range(ntodo): handle = ready.popleft(); ... ; a SystemExit / KeyboardInterrupt ends the batch *)
 Fixpoint run_ready (fl : flags) (cfg : config) (n : nat) (w : world) : world * list event :=
   match n with
   | O => (w, [])
@@ -264,7 +272,8 @@ Fixpoint run_ready (fl : flags) (cfg : config) (n : nat) (w : world) : world * l
       match w_ready w with
       | [] => (w, [])
       | h :: r =>
-          let '(w1, e1) := run_handle fl cfg h (set_ready w r) in
+          let '(w1, e1, fatal) := run_handle fl cfg h (set_ready w r) in
+          if fatal then (w1, e1) else
           let '(w2, e2) := run_ready fl cfg n' w1 in
           (w2, e1 ++ e2)
       end
@@ -349,4 +358,4 @@ Definition simulate (fl : flags) (cfg : config) (t0 : Z) (xs : list (Z * ext)) (
   (w2, e1 ++ e2).
 
 (* the flags of the checked-out source *)
-Definition src_flags : flags := mk_flags gen_guard gen_clear gen_mono gen_truth gen_resolve.
+Definition src_flags : flags := mk_flags gen_guard gen_clear dead_timer_cleared_on_base_exception gen_mono gen_truth gen_resolve.
